@@ -118,6 +118,14 @@ M = [
     ("c11_command_args_dropped", SF, "        \"cmd\": obj.cmd,\n        \"args\": obj.args,\n        \"save_as\": bool(obj.save_as),\n        \"relative_path\": rel,\n    }\n\n\n@deserializer(CommandOutputProvider)", "        \"cmd\": obj.cmd,\n        \"args\": None,\n        \"save_as\": bool(obj.save_as),\n        \"relative_path\": rel,\n    }\n\n\n@deserializer(CommandOutputProvider)"),
     ("c11_failed_component_not_persisted", "insights/core/serde.py", "if doc is not None and (doc[\"results\"] or doc[\"errors\"]):", "if doc is not None and doc[\"results\"]:"),
     ("c11_loaded_specs_collected_again", DR, "    if broker.get(SerializedArchiveContext) is not None:", "    if False and broker.get(SerializedArchiveContext) is not None:"),
+    # two cooperating sites: persisting warms the name look-up, the look-up itself only finds components that something
+    # depends on - invisible while the collecting process loads its own archive, visible to a fresh interpreter
+    ("c11_name_lookup_works_only_in_the_collecting_process", [
+        ("insights/core/serde.py", "            name = dr.get_name(comp)\n\n            # The `broker.tracebacks`",
+         "            name = dr.get_name(comp)\n            dr.COMPONENTS_BY_NAME[name] = comp\n\n            # The `broker.tracebacks`"),
+        (DR, "    for d in DELEGATES:\n        if get_name(d) == name:\n            return d",
+         "    for deps in COMPONENTS[GROUPS.single].values():\n        for d in deps:\n            if get_name(d) == name:\n                return d"),
+    ]),
     ("c11_value_error_aborts_loading", "insights/core/serde.py", "            except ValueError as ve:\n                log.debug(ve)\n", "            except ValueError as ve:\n                raise\n"),
     # ---- C12 -----------------------------------------------------------------
     ("c12_non_string_key_accepted", PL, "        elif not isinstance(key, str):\n            msg = \"Response contains invalid %s type\" % self.key_name\n            raise ValidationException(msg, type(key))\n", ""),
@@ -218,18 +226,25 @@ def main():
             os.remove(os.path.join(outdir, f))
     bad = 0
     for m in M:
-        name, rel, old, new = m[0], m[1], m[2], m[3]
-        with open(os.path.join(REPO, rel)) as f:
-            src = f.read()
-        n = src.count(old)
-        if n != 1:
-            print("!! %s: pattern occurs %d times in %s" % (name, n, rel))
+        name = m[0]
+        # one edit (name, file, old, new) or several cooperating sites (name, [(file, old, new), ...])
+        edits = m[1] if isinstance(m[1], list) else [(m[1], m[2], m[3])]
+        diffs = []
+        for rel, old, new in edits:
+            with open(os.path.join(REPO, rel)) as f:
+                src = f.read()
+            n = src.count(old)
+            if n != 1:
+                print("!! %s: pattern occurs %d times in %s" % (name, n, rel))
+                diffs = None
+                break
+            dst = src.replace(old, new)
+            diffs.extend(difflib.unified_diff(src.splitlines(True), dst.splitlines(True), "a/" + rel, "b/" + rel))
+        if diffs is None:
             bad += 1
             continue
-        dst = src.replace(old, new)
-        diff = difflib.unified_diff(src.splitlines(True), dst.splitlines(True), "a/" + rel, "b/" + rel)
         with open(os.path.join(outdir, name + ".patch"), "w") as f:
-            f.writelines(diff)
+            f.writelines(diffs)
     print("%d mutants written, %d skipped" % (len(M) - bad, bad))
     return 1 if bad else 0
 
